@@ -68,3 +68,17 @@ Definition reread_value (v : str) : str :=
 
 Definition reread_para (d : list (str * str)) : list (str * str) :=
   map (fun kv => (fst kv, reread_value (snd kv))) d.
+
+(** * The same through a file object (lines end at LF only; a CR inside a line
+      stays where it is) *)
+Definition crlf_char (c : N) : bool := (c =? CR)%N || (c =? LF)%N.
+
+Definition reread_value_file (v : str) : str :=
+  match split_on LF v with
+  | [] => []
+  | first :: conts =>
+      value_of (strip_by py_isspace first) (filter kept_cont (map (rstrip_by crlf_char) conts))
+  end.
+
+Definition reread_para_file (d : list (str * str)) : list (str * str) :=
+  map (fun kv => (fst kv, reread_value_file (snd kv))) d.
